@@ -70,7 +70,7 @@ LEVEL_TEXT = {
  'C11': "Proved: independence of the declared velocity axis under transposition, non-negativity of trace / determinant / v_rms^2 (Cauchy-Schwarz) so sigmas are real, non-negative, ordered; re-embedding of sky axes (repaired; old defect as witness). sqrt / atan2 / eigh are outside the model: sum and product of squared sigmas are compared, position angle is checked numerically.",
  'C12': "Proved: rows are one per structure, sorted by identifier, each the statistic of that structure alone; the edge-wrap heuristic never widens, moves by whole periods only, is a no-op on intervals (non-periodic data) and on narrow structures, and unwraps straddling ones. Catalogs of real dendrograms compared row by row; shift invariance on periodic data.",
  'C13': "Proved for arbitrary constants: additivity, linearity, unit invariance, output unit, Rayleigh-Jeans factor with beam cancellation, and the whole error table (a number iff family supported, required items present and well-dimensioned, output a flux density). Astropy's unit engine is trusted; results compared with exact rationals and with the textbook formula.",
- 'C14': "Proved on an object-heap model mirroring the cache code assignment by assignment: for every history of cached queries and prunes every observation equals the one computed from the live links (C14_history_sound); the code before the repair is proved stale by witnesses. Every history is mirrored query by query on the heap model (answers and cache fill state) and compared with a dendrogram rebuilt from links, label map and data.",
+ 'C14': "Proved on an object-heap model mirroring the cache code assignment by assignment: for every history of cached queries and prunes every observation equals the one computed from the live links (C14_history_sound); the same for the pixel-count and peak caches on a second heap model with own pixel lists (C14_pix_history_sound: get_npix / get_peak answers of every history equal those of a fresh object graph); the code before the repair is proved stale by witnesses. Every history is mirrored query by query on the heap model (answers and cache fill state) and compared with a dendrogram rebuilt from links, label map and data.",
  'C15': "Definitional in the model (compute is a function); proved: the repaired significance test is width-free, the old one was not (witness); determinism for distinct values. The check runs every case as repeat / verbose / layouts / dtypes / after a prelude and requires identical results equal to the model. Known finding K4: with ties the unstable, dtype-specific argsort makes the result depend on the dtype.",
  'C16': "Proved: the whole pixel loop is equivariant under any pixel renaming preserving adjacency and any order-preserving value map (C16_run_equivariant), instantiated for arbitrary axis permutations, flips, unit axes, padding, affine maps with the built-in criteria; threshold restriction for distinct values without pruning; ties clause: the number of leaves without pruning is invariant under every such transformation whatever the tie order (C16_leaf_count_invariant), assigned pixels / trunk regions are order-independent for monotone criteria (C17_assigned_order_independent) and not for min_sum on negative data (C16_K6_witness, known finding K6).",
  'C17': "Proved: characterisation of the periodic adjacency on one axis and in coordinates (wraps exactly on declared axes, lengths 1 and 2 included), symmetry, shift automorphism, and shift invariance of the whole run (C17_shift_invariance); ties clause: assigned pixels and trunk regions do not depend on the order of equal values for criteria that can only turn true as a structure grows (C17_assigned_order_independent, C17_trunk_regions_order_independent, C17_root_survives_iff), the hypothesis cannot be dropped (C17_K5_witness, known finding K5), leaf count without pruning is order-independent.",
@@ -97,7 +97,7 @@ reg(Prop('C14', ph.gen_item_C14, ph.eval_C14, 3000, 100000,
          "histories of 2-10 operations (cache-warming queries, prunes, Newick export, save/load in both formats, plotter "
          "construction) on a seeded computed dendrogram; after every step all observables are compared with the model "
          "(a function of the current forest) and with a dendrogram rebuilt from links, label map and data; non-trivial = a "
-         "prune removed a structure", ASSUME_COMPUTE, ['C14_history_sound', 'C14_level', 'C14_descendants', 'C14_prune_sound', 'C14_prune_resets_all', 'C14_descendants_nodup', 'C14_old_stale_level', 'C14_old_stale_descendants', 'C14_old_stale_newick']))
+         "prune removed a structure", ASSUME_COMPUTE, ['C14_history_sound', 'C14_level', 'C14_descendants', 'C14_prune_sound', 'C14_prune_resets_all', 'C14_descendants_nodup', 'C14_old_stale_level', 'C14_old_stale_descendants', 'C14_old_stale_newick', 'C14_pix_history_sound', 'C14_get_peak', 'C14_get_npix', 'C14_pix_prune_resets_all', 'C14_merge_keeps_count']))
 
 import props_analysis as pa  # noqa: E402
 
